@@ -13,17 +13,34 @@
 (* over a transport that may fail once or persistently; `wire` is what got  *)
 (* through, i.e. the remote receiver's view.  Deltify runs with             *)
 (* maxDataOpSize = 0 (the default size), as in the code.                    *)
-(* Not modelled: files that cannot be opened (error transmission).          *)
+(* A file that cannot be opened is not terminal: the receiver is told with  *)
+(* a Done transmission carrying the error, and the loop continues.          *)
+(* Transmit re-uses ONE Transmission object (tm) for everything it hands to *)
+(* the receiver; the code overwrites it wholesale before each use           *)
+(* (TmReset = "whole").  TmReset = "fieldwise" (not registered) updates     *)
+(* only the fields a message needs: a stale Error / Done then reaches the   *)
+(* receiver, whose DecodeToReceiver rejects the stream (EnsureValid).       *)
 (***************************************************************************)
 EXTENDS RsyncEngine
 
 CONSTANTS MaxLenT,      \* bytes per base/target and block sizes at this level
-          NFiles        \* files per Transmit call
+          NFiles,       \* files per Transmit call
+          MissingFiles, \* may a path fail to open?
+          TmReset       \* "whole" | "fieldwise": how the re-used Transmission is set up
 
 VARIABLE t
 
-FileSet == {[base |-> b, target |-> g, bs |-> z] : b \in Seqs(MaxLenT), g \in Seqs(MaxLenT), z \in 1..MaxLenT}
-DoneMarker == [data |-> <<>>, start |-> 0, count |-> 0]   \* placeholder operation of a Done transmission
+FileSet == {[base |-> b, target |-> g, bs |-> z, missing |-> FALSE] :
+              b \in Seqs(MaxLenT), g \in Seqs(MaxLenT), z \in 1..MaxLenT}
+           \cup (IF MissingFiles THEN {[base |-> <<>>, target |-> <<>>, bs |-> 1, missing |-> TRUE]} ELSE {})
+DoneMarker == ZeroOp                                      \* a Done transmission carries no operation
+ZeroTm == [done |-> FALSE, op |-> ZeroOp, err |-> ""]
+\* the re-used Transmission as handed to the receiver for an operation / a done message / an open error
+TmOp(tm, o) == IF TmReset = "whole" THEN [done |-> FALSE, op |-> o, err |-> ""]
+               ELSE [tm EXCEPT !.done = FALSE, !.op = o]
+TmDone(tm, e) == IF TmReset = "whole" THEN [done |-> TRUE, op |-> ZeroOp, err |-> e]
+                 ELSE IF e # "" THEN [tm EXCEPT !.done = TRUE, !.op = ZeroOp, !.err = e]
+                 ELSE [tm EXCEPT !.done = TRUE, !.op = ZeroOp]
 
 \* Deltify state for file k, continuing the transport's failure bookkeeping
 OpenFile(files, k, prev) ==
@@ -33,39 +50,48 @@ NoTransport == [calls |-> 0, nfailed |-> 0, fmode |-> "none", failedAt |-> 0]
 
 TInit == \E fs \in [1..NFiles -> FileSet] :
            t = [files |-> fs, i |-> 1, phase |-> "open", d |-> OpenFile(fs, 1, NoTransport),
-                txErr |-> "", wire |-> <<>>, ret |-> ""]
+                txErr |-> "", wire |-> <<>>, ret |-> "", tm |-> ZeroTm]
 
 \* for i, p := range paths: OpenFile, transmitError := nil
-TOpen == /\ t.phase = "open"
+TOpen == /\ t.phase = "open" /\ (t.i <= Len(t.files) => ~t.files[t.i].missing)
          /\ t' = IF t.i > Len(t.files) THEN [t EXCEPT !.phase = "finalize"]
                  ELSE [t EXCEPT !.d = OpenFile(t.files, t.i, t.d), !.txErr = "", !.phase = "deltify"]
+\* opener.OpenFile failed: Transmission{Done: true, Error: ...}; only a failure to send it is terminal
+TOpenFails ==
+  /\ t.phase = "open" /\ t.i <= Len(t.files) /\ t.files[t.i].missing
+  /\ LET m == TmDone(t.tm, "unable to open file") IN
+     t' \in WithTx(t.d, DoneMarker,
+                   LAMBDA u : [t EXCEPT !.d = u, !.tm = m, !.wire = Append(@, m), !.i = @ + 1],
+                   LAMBDA u : [t EXCEPT !.d = u, !.tm = m, !.phase = "returned", !.ret = "unable to send error transmission"])
 \* one step of engine.Deltify(file, signatures[i], 0, transmit); a transmit call overwrites transmitError
 TDeltify == /\ t.phase = "deltify" /\ t.d.pc \notin {"done", "panic"}
             /\ \E u \in Steps(t.d) :
                  t' = [t EXCEPT !.d = u,
                                 !.txErr = IF u.calls > t.d.calls THEN (IF u.nfailed > t.d.nfailed THEN "receive failed" ELSE "")
                                           ELSE @,
+                                !.tm = IF u.calls > t.d.calls THEN TmOp(@, u.eop) ELSE @,
                                 !.wire = IF Len(u.delivered) > Len(t.d.delivered)
-                                         THEN Append(@, [done |-> FALSE, op |-> u.delivered[Len(u.delivered)]]) ELSE @]
+                                         THEN Append(@, TmOp(t.tm, u.delivered[Len(u.delivered)])) ELSE @]
 \* if transmitError != nil { receiver.finalize(); return ... }
 TAfterDeltify == /\ t.phase = "deltify" /\ t.d.pc = "done"
                  /\ t' = IF t.txErr # "" THEN [t EXCEPT !.phase = "returned", !.ret = "unable to transmit delta"]
                          ELSE [t EXCEPT !.phase = "donemsg"]
 \* receiver.Receive(&Transmission{Done: true, Error: engine error if any})
 TDoneMsg == /\ t.phase = "donemsg"
-            /\ t' \in WithTx(t.d, DoneMarker,
-                              LAMBDA u : [t EXCEPT !.d = u, !.wire = Append(@, [done |-> TRUE, op |-> DoneMarker]),
-                                                   !.i = @ + 1, !.phase = "open"],
-                              LAMBDA u : [t EXCEPT !.d = u, !.phase = "returned", !.ret = "unable to send done message"])
+            /\ LET m == TmDone(t.tm, "") IN
+               t' \in WithTx(t.d, DoneMarker,
+                             LAMBDA u : [t EXCEPT !.d = u, !.tm = m, !.wire = Append(@, m), !.i = @ + 1, !.phase = "open"],
+                             LAMBDA u : [t EXCEPT !.d = u, !.tm = m, !.phase = "returned", !.ret = "unable to send done message"])
 \* receiver.finalize(); return nil
 TFinalize == /\ t.phase = "finalize" /\ t' = [t EXCEPT !.phase = "returned"]
 
-TNext == TOpen \/ TDeltify \/ TAfterDeltify \/ TDoneMsg \/ TFinalize
+TNext == TOpen \/ TOpenFails \/ TDeltify \/ TAfterDeltify \/ TDoneMsg \/ TFinalize
 TSpecT == TInit /\ [][TNext]_t
 
-Files3(fs) == [k \in DOMAIN fs |-> [base |-> fs[k].base, target |-> fs[k].target, bs |-> fs[k].bs]]
 InvC20Transmit == t.phase = "returned" => C20_TransmitReported(t.d.nfailed, t.ret, t.files, t.wire)
-InvCleanDelivers == (t.phase = "returned" /\ t.d.nfailed = 0) => t.ret = "" /\ AllObtained(t.files, t.wire)
+InvCleanDelivers == t.phase = "returned" => C20_CleanTransmitDelivers(t.d.nfailed, t.ret, t.files, t.wire)
 \* the assumption the transmit closure's comment states: once a call failed, transmit is not called again
 InvNoCallAfterFailure == t.d.nfailed <= 1
+\* whatever happened to earlier files of the batch, the receiver is never handed an invalid transmission
+InvStreamValid == StreamValid(t.wire)
 ====
